@@ -18,7 +18,7 @@ RULE = ('schemas x {parsed, API-built}; .sql read back by an independent reader 
         'pk column(s)/pk index, enum-typed column, default}; distinct by sha1 of the SQL text')
 ASSUMPTIONS = ['defaults and expressions are single-line (the reader is line-structural)',
                'spelling of boolean defaults and the quote neutralisation style are not constrained (statement is silent)']
-FLOORS = {'quick': {'falsy_default': 10, 'composite_pk': 10, 'pk_index': 10, 'nonpublic_index': 10, 'nonpublic_note': 10,
+FLOORS = {'quick': {'same_name_two_schemas': 100, 'falsy_default': 10, 'composite_pk': 10, 'pk_index': 10, 'nonpublic_index': 10, 'nonpublic_note': 10,
                     'enum_col_nonpublic': 5},
           'thorough': {'falsy_default': 100, 'composite_pk': 100, 'pk_index': 100, 'nonpublic_index': 100,
                        'nonpublic_note': 100, 'enum_col_nonpublic': 50}}
